@@ -71,10 +71,17 @@ func countFDs() int {
 	return len(ents)
 }
 
+var stackBuf = make([]byte, 1<<20)
+var stackMu sync.Mutex
+
 func lexerGoroutines() int {
-	buf := make([]byte, 1<<20)
-	n := runtime.Stack(buf, true)
-	return bytes.Count(buf[:n], []byte("parse.(*lexer)"))
+	if runtime.NumGoroutine() <= 2 {
+		return 0 // main and (at most) the reader: nothing of the library is running
+	}
+	stackMu.Lock()
+	defer stackMu.Unlock()
+	n := runtime.Stack(stackBuf, true)
+	return bytes.Count(stackBuf[:n], []byte("parse.(*lexer)"))
 }
 
 // blockedLexers counts tokeniser goroutines parked in a channel send.
